@@ -23,7 +23,9 @@ RULE = ('Pool of valid version strings from structured generators (leading zeros
         'letters vs +/./-, digit/non-digit misalignment, epoch 0/absent/00, revision absent/0; plus ~90 versions with digit runs of '
         '9..31 digits, with and without leading zeros, in upstream / revision / epoch, and 6 with runs of 4300..5000 digits); every ordered '
         'pair of the pool is compared with all operators; plus objects that were compared and hashed and then given another '
-        'pool value (full_version or component assignments) and compared again.  A pair is non-trivial when the two strings differ '
+        'pool value (full_version or component assignments) and compared again; operands obtained by copy / deepcopy / pickle / Version(version) / '
+        'Version(str subclass), str-subclass operands, and the objects inside sorted / min / max / set / dict; every other shard runs with the '
+        'interpreter\'s int <-> str conversion limit lowered to 640 digits (pool holds runs of 640..2000 digits).  A pair is non-trivial when the two strings differ '
         'and share a common prefix of >= 1 character (decided inside the algorithm, not on the first character).')
 ASSUMPTIONS = ['vp.models.dpkgver is a faithful port of dpkg lib/dpkg/version.c (cross-checked against the dpkg binary in the thorough tier)',
                'Version is NativeVersion (python-apt absent); the class exercised is recorded in coverage.version_class',
